@@ -123,6 +123,10 @@ func init() {
 			ruleToplevelRepeated(c)
 			ruleProtoMapEntry(c)
 			ruleClearBeforeRead(c)
+			ruleDispatchKnown(c)
+			rulePtime(c)
+			ruleOverlayKey(c)
+			ruleEntryPresence(c)
 			// "every length is exact": the size/frame laws of every codec that can appear in proto-mode output
 			ruleSizeLaw(c)
 			ruleFrame(c)
